@@ -1449,7 +1449,7 @@ pub(crate) fn warn_override(name: &RedoPath) {
  * elements along the way could result in pathname aliases for a *particular*
  * target, so we want to resolve it to one unique name.
  */
-fn realdirpath<'a, P>(t: &'a P) -> io::Result<Cow<'a, Path>>
+pub(crate) fn realdirpath<'a, P>(t: &'a P) -> io::Result<Cow<'a, Path>>
 where
     P: AsRef<Path> + ?Sized,
 {
